@@ -304,21 +304,21 @@ structure DomainOk (domain : List Nat) (dls : List (List Nat)) : Prop where
 def DataOk (data : List Nat) : Prop := data ≠ [] ∧ ∀ b ∈ data, b ≠ 46 ∧ b ≠ 92 ∧ b < 256
 
 /-- side conditions on the constants read from the source (re-checked when the source changes) -/
-theorem gen_stride_pos : 0 < SA.Gen.dotifyStride := by decide
-theorem gen_stride_le : SA.Gen.dotifyStride ≤ 63 := by decide
+theorem gen_stride_pos : 0 < SA.Gen.C09.dotifyStride := by decide
+theorem gen_stride_le : SA.Gen.C09.dotifyStride ≤ 63 := by decide
 theorem gen_label_le : SA.Gen.labelMaxLen ≤ 63 := by decide
-theorem gen_host_lt : SA.Gen.hostnameMaxLen - SA.Gen.prepareSlack < 254 := by decide
+theorem gen_host_lt : SA.Gen.hostnameMaxLen - SA.Gen.C09.prepareSlack < 254 := by decide
 
 theorem dotted_append (a b : List (List Nat)) : dotted (a ++ b) = dotted a ++ dotted b := by
   simp [dotted]
 
 theorem prepareHostname_some (data domain host : List Nat) (h : prepareHostname data domain = some host) :
     host = (if data.length > SA.Gen.labelMaxLen then dotify data else data) ++ dot :: (domain ++ [dot])
-      ∧ host.length ≤ SA.Gen.hostnameMaxLen - SA.Gen.prepareSlack := by
+      ∧ host.length ≤ SA.Gen.hostnameMaxLen - SA.Gen.C09.prepareSlack := by
   unfold prepareHostname at h
   generalize (if data.length > SA.Gen.labelMaxLen then dotify data else data) = d at h ⊢
   simp only at h
-  by_cases hl : (d ++ dot :: (domain ++ [dot])).length > SA.Gen.hostnameMaxLen - SA.Gen.prepareSlack
+  by_cases hl : (d ++ dot :: (domain ++ [dot])).length > SA.Gen.hostnameMaxLen - SA.Gen.C09.prepareSlack
   · rw [if_pos hl] at h; exact absurd h (by simp)
   · rw [if_neg hl] at h
     have := Option.some.inj h
@@ -331,7 +331,7 @@ theorem prepareHostname_wire (data domain host : List Nat) (dls : List (List Nat
     ∃ chunks : List (List Nat), chunks ≠ [] ∧ chunks.flatten = data
       ∧ (∀ l ∈ chunks, l ≠ [] ∧ l.length ≤ 63)
       ∧ host = dotted (chunks ++ dls)
-      ∧ host.length ≤ SA.Gen.hostnameMaxLen - SA.Gen.prepareSlack
+      ∧ host.length ≤ SA.Gen.hostnameMaxLen - SA.Gen.C09.prepareSlack
       ∧ nameOverWire host = .ok (chunks ++ dls)
       ∧ stripDomain (unpackName (chunks ++ dls)) domain = some data := by
   obtain ⟨hne, hbytes⟩ := hd
@@ -340,7 +340,7 @@ theorem prepareHostname_wire (data domain host : List Nat) (dls : List (List Nat
       (if data.length > SA.Gen.labelMaxLen then dotify data else data) ++ [dot] = dotted chunks
       ∧ chunks.flatten = data ∧ (∀ l ∈ chunks, l ≠ [] ∧ l.length ≤ 63) := by
     by_cases hlong : data.length > SA.Gen.labelMaxLen
-    · refine ⟨chunksAux SA.Gen.dotifyStride data.length data, ?_, chunksAux_flatten _ _ _, ?_⟩
+    · refine ⟨chunksAux SA.Gen.C09.dotifyStride data.length data, ?_, chunksAux_flatten _ _ _, ?_⟩
       · simp only [hlong, if_true, dotify]; exact dotifyAux_dotted _ _ _
       · intro l hl
         have := chunksAux_bounds _ gen_stride_pos data.length data hne (Nat.le_refl _) l hl
@@ -353,7 +353,7 @@ theorem prepareHostname_wire (data domain host : List Nat) (dls : List (List Nat
   obtain ⟨chunks, hdot, hflat, hbounds⟩ := hch
   have hcne : chunks ≠ [] := by
     intro h0; rw [h0] at hflat; simp at hflat; exact hne hflat.symm.symm
-  have hhost : host = dotted (chunks ++ dls) ∧ host.length ≤ SA.Gen.hostnameMaxLen - SA.Gen.prepareSlack := by
+  have hhost : host = dotted (chunks ++ dls) ∧ host.length ≤ SA.Gen.hostnameMaxLen - SA.Gen.C09.prepareSlack := by
     obtain ⟨heq, hlen⟩ := prepareHostname_some data domain host hfit
     refine ⟨?_, hlen⟩
     rw [heq, dotted_append, ← hdot, hdom.dotted_eq]
